@@ -46,6 +46,16 @@ _STRESS = [
     dict(crop="Sunflower", irr_method=1, synth=True, regime="cold"),
     dict(crop="Soybean", irr_method=3, synth=True, regime="hot", soil="SandyClay", soil_kind="builtin"),
 ]
+# crops calibrated with a cold-stress window for transpiration (no catalogue crop has one: `GDD_lo = 0` throughout), grown
+# through a cool season so that days with growing degrees strictly inside the window occur
+_COLD = [
+    dict(crop="Wheat", station="brussels_climate.txt", planting="10/15", n_seasons=1, start_mode="at", irr_method=0, gw=False,
+         crop_over={"TrColdStress": 1, "GDD_lo": 4.0, "GDD_up": 14.0}),
+    dict(crop="Barley", station="brussels_climate.txt", planting="03/01", n_seasons=2, start_mode="before", irr_method=1, gw=False,
+         crop_over={"TrColdStress": 1, "GDD_lo": 2.0, "GDD_up": 9.0}),
+    dict(crop="MaizeGDD", station="champion_climate.txt", planting="04/15", n_seasons=1, start_mode="at", irr_method=0, gw=False,
+         crop_over={"TrColdStress": 1, "GDD_lo": 3.0, "GDD_up": 12.0}),
+]
 _DRYBED = [
     dict(crop="Maize", station="champion_climate.txt", irr_method=1, soil="SiltLoam", soil_kind="builtin", iwc=DRY,
          start_mode="at", n_seasons=1),
@@ -83,17 +93,17 @@ _SEASONS = [
 
 TARGET_STRATA = {
     "infiltration": _POND, "rainfall_partition": _POND + [dict(fm="cnadj", synth=True, regime="storm", iwc=SAT)],
-    "drainage": _POND + _SOIL, "transpiration": _NETIRR + _POND, "aeration_stress": _POND + _NETIRR,
+    "drainage": _POND + _SOIL, "transpiration": _COLD + _NETIRR + _POND, "aeration_stress": _POND + _NETIRR,
     "soil_evaporation": _POND + [dict(fm="mulch", irr_method=1), dict(fm="mix", irr_method=3)],
     "evap_layer_water_content": _SOIL, "irrigation": _DRYBED + _NETIRR, "pre_irrigation": _NETIRR + _SEASONS,
     "root_zone_water": _SOIL + _NETIRR, "water_stress": _STRESS, "growth_stage": _DRYBED,
     "germination": _DRYBED, "harvest_index": _STRESS, "HIref_current_day": _STRESS + _CLOCK,
     "biomass_accumulation": _STRESS, "canopy_cover": _STRESS + _DRYBED, "root_development": _SOIL + _GW,
-    "temperature_stress": _STRESS, "growing_degree_day": _STRESS,
+    "temperature_stress": _STRESS + _COLD, "growing_degree_day": _STRESS,
     "check_groundwater_table": _GW, "capillary_rise": _GW, "groundwater_inflow": _GW,
     "clock": _CLOCK, "solution_single_time_step": _CLOCK + _POND + _NETIRR,
     "fco2_reset": _SEASONS, "reset_calendar": _SEASONS, "reset_state": _SEASONS, "crop_calendar": _SEASONS, "soil_profile": _SOIL, "init_wc": _SOIL + _GW,
-    "water_day": _POND + _NETIRR + _GW, "full_day": _POND + _NETIRR + _STRESS + _CLOCK,
+    "water_day": _POND + _NETIRR + _GW, "full_day": _POND + _NETIRR + _STRESS + _CLOCK + _COLD,
 }
 
 
